@@ -4,7 +4,7 @@
    come with the case as tables; canon and the "\n...\n" split are computed by the model
    and must reproduce the library's Bytes and bytes.Split. *)
 From Coq Require Import List String Ascii Bool.
-From Helm Require Import Common.Assoc Misc.Prov Misc.ProvTrust Misc.ProvFiles.
+From Helm Require Import Common.Assoc Misc.Prov Misc.ProvTrust Misc.ProvFiles Misc.ProvYaml.
 Import ListNotations.
 Local Open Scope string_scope.
 
@@ -15,7 +15,8 @@ Record ptab := mkTab {
                                             every keyring of the group: the model never reads them then *)
   t_parts : option (nat * nat);          (* lengths of bytes.Split(Plaintext, "\n...\n")[0] and [1]; None if fewer than two parts *)
   t_meta_ok : bool;                      (* yaml.Unmarshal(part0, &Metadata) == nil *)
-  t_sums : option (list (string * string)) }.  (* SumCollection.Files of part1, key-sorted *)
+  t_sums : option (list (string * string));    (* SumCollection.Files of part1, key-sorted *)
+  t_p1 : option string }.                (* part 1 itself where Plaintext is elided (only compared with the sums parser) *)
 
 Definition t_part0 (tb : ptab) : string :=
   match t_decode tb, t_parts tb with
@@ -91,7 +92,8 @@ Record case := mkCase {
   k_dls : list (option ptab * dcheck);           (* None = the provenance file served has the library results of k_tab *)
   k_signs : list sgn;
   k_sigs : list (option ptab * scheck);
-  k_files : list (option ptab * fcheck) }.
+  k_files : list (option ptab * fcheck);
+  k_toks : list (string * string) }.             (* token |-> hex digest, for the tokens used in sums tables *)
 
 Section Run.
   Variable tb : ptab.
@@ -227,7 +229,34 @@ Section Run.
     end.
 End Run.
 
+(* the modelled sums parser (Misc/ProvYaml.v) against sigs.k8s.io/yaml: where part 1 has the
+   modelled shape the library's Files map is the parser's.  [toks]: the digests behind the
+   short tokens that occur in sums tables. *)
+Definition untok (toks : list (string * string)) (v : string) : string :=
+  if String.prefix "sha256:" v then
+    match aget (drop 7 v) toks with Some h => "sha256:" ++ h | None => v end
+  else v.
+
+Definition sums_match (toks : list (string * string)) (fs : list (string * string)) (tbl : option (list (string * string))) : bool :=
+  match tbl with
+  | None => false
+  | Some l =>
+      Nat.eqb (List.length l) (List.length fs) &&
+      forallb (fun kv => match aget (fst kv) l with
+                         | Some v => String.eqb (untok toks v) (snd kv)
+                         | None => false
+                         end) fs
+  end.
+
+Definition parse_ok (toks : list (string * string)) (tb : ptab) : bool :=
+  let p1 := match t_p1 tb with Some p => p | None => t_part1 tb end in
+  match parse_sums p1 with
+  | SIn fs => sums_match toks fs (t_sums tb)
+  | SOutside => true
+  end.
+
 Definition case_ok (c : case) : bool :=
+  let tab_ok := fun tb => tab_ok tb && parse_ok (k_toks c) tb in
   tab_ok (k_tab c) && forallb (check_ok (k_tab c)) (k_checks c)
   && forallb (fun x => match fst x with
                        | Some tb => tab_ok tb && check_ok tb (snd x)
